@@ -67,4 +67,20 @@ PROPS = {
                         "no re-entrant connect/disconnect during a call; unregister callbacks do not throw",
                         "a moved-from signal is only destroyed, assigned to or asked empty()"],
     },
+    "C12": {
+        "engines": [{
+            "id": "C12", "bin": "c12", "flavour": "asan",
+            "runs": {"quick": 300000, "thorough": 30000000},
+            "budget": {"quick": 40, "thorough": 900},
+            "enum_every": {"quick": 100, "thorough": 25},
+        }],
+        "technique": "deterministic simulation with fault injection: seeded read/save/restore/parse histories over a simulated stream buffer (chunked refills, injected read errors, failing seeks, truncation) against a text+index model with line/column recomputed from scratch; differential run of every grammar against a real stringbuf; minimised replay",
+        "level_text": "Seeded search over texts (newline-heavy, up to 25/40 characters, char and wchar_t) and histories (up to 40) of get_char / get_position / set_position(saved) / character-level parsers / 9 compound grammars on parse::detail::stream, the stream buffer being simulated (chunk sizes 1,2,3,7,whole; refills that throw; seeks/tells that fail; truncation at an arbitrary byte) or real (stringbuf, filebuf). Every returned character, offset, line and column is compared with a model that recomputes them from scratch; error texts of literal/char_set must carry the location immediately after the offending character; after a read error no call may yield a character and a grammar may only fail or yield what the text before the error yields; after a failed seek only failure or the true next character is accepted. Sampling, not proof.",
+        "level_note": "Stubs: the streambuf (sim::StreamBuf) in 70% of the runs; real std::basic_stringbuf / std::basic_filebuf in the rest (no faults there). Trusted: the text+index model, a real stringbuf as the reference for grammar results, ASan/UBSan, the harness.",
+        "rule": "One run = one text plus one history of stream operations executed on one parse stream; about a third of the runs inject read errors / seek failures / truncation. Non-trivial = at least 3 effective operations.",
+        "real": REAL_COMMON + ["parse::detail::stream, get_char/get_position/set_position, basic_literal/char_set/char/string, all operators, phrase_parse", "std::basic_istream, std::basic_stringbuf, std::basic_filebuf"],
+        "stub": ["stream buffer behind the istream (sim::StreamBuf: chunking, read errors, seek failures, truncation) in 70% of the runs"],
+        "assumptions": ["a failed seek leaves the file position unchanged (as the simulated buffer implements it)",
+                        "after a read error every later operation may fail; none may produce a character"],
+    },
 }
